@@ -2,7 +2,8 @@
    Only statements, each closed by [exact] of a lemma proved in Stree/Height*.v. *)
 From Coq Require Import ZArith List.
 Import ListNotations.
-From Mds Require Import Stree.StreeModel Stree.HeightModel Stree.HeightLimit Stree.HeightBasics.
+From Mds Require Import Stree.StreeModel Stree.HeightModel Stree.HeightLimit Stree.HeightBasics
+  Stree.HeightRewrite.
 Local Open Scope Z_scope.
 
 (* (c) The exact depth limit (largest k with 2000^k <= n*(1000+b)^k, which is what limitFunc
@@ -31,3 +32,16 @@ Proof. exact @extract_height. Qed.
 Print Assumptions C02_new_minimal.
 Example C02_new_minimal_ex : exists t, extract [1;2;3;4;5;6] = Ok t /\ height t = 2.
 Proof. eexists. split; reflexivity. Qed.
+
+(* (a) The rebuild used for the scapegoat subtree and on the delete side: rewrite (treeToVine, then
+   vineToTree = Day-Stout-Warren), called with the true size of a non-empty tree, never panics or
+   runs out of fuel, keeps the keys in order and returns a tree of height exactly floor(log2 n),
+   the minimum possible. *)
+Theorem C02_rewrite_balanced : forall (T : Type) (t : tree T), t <> Leaf ->
+  exists t', rewrite t (size t) = Ok t' /\ inorder t' = inorder t /\ height t' = Z.log2 (size t).
+Proof. exact @rewrite_balanced. Qed.
+Print Assumptions C02_rewrite_balanced.
+Example C02_rewrite_balanced_ex :
+  rewrite (Node Leaf 1 (Node Leaf 2 (Node Leaf 3 (Node Leaf 4 (Node Leaf 5 Leaf))))) 5
+  = Ok (Node (Node (Node Leaf 1 Leaf) 2 (Node Leaf 3 Leaf)) 4 (Node Leaf 5 Leaf)).
+Proof. reflexivity. Qed.
